@@ -62,11 +62,13 @@ impl PathData {
         generation: u64,
         now: Instant,
         config: &TransportConfig,
+        congestion_seed: u64,
     ) -> Self {
-        let congestion = config
-            .congestion_controller_factory
-            .clone()
-            .build(now, config.get_initial_mtu());
+        let congestion = config.congestion_controller_factory.clone().build_seeded(
+            now,
+            config.get_initial_mtu(),
+            congestion_seed,
+        );
         Self {
             remote,
             rtt: RttEstimator::new(config.initial_rtt),
@@ -155,12 +157,13 @@ impl PathData {
     /// Resets RTT, congestion control and MTU states.
     ///
     /// This is useful when it is known the underlying path has changed.
-    pub(super) fn reset(&mut self, now: Instant, config: &TransportConfig) {
+    pub(super) fn reset(&mut self, now: Instant, config: &TransportConfig, congestion_seed: u64) {
         self.rtt = RttEstimator::new(config.initial_rtt);
-        self.congestion = config
-            .congestion_controller_factory
-            .clone()
-            .build(now, config.get_initial_mtu());
+        self.congestion = config.congestion_controller_factory.clone().build_seeded(
+            now,
+            config.get_initial_mtu(),
+            congestion_seed,
+        );
         self.mtud.reset(config.get_initial_mtu(), config.min_mtu);
     }
 
